@@ -355,7 +355,22 @@ def stage_projects(res, pr, tier, seed):
             spec_bad.append((pj, "full pipeline: the project with %d included files of one shape gives %s, the spliced single file another catalog" % (len(pj) - 1, sx)))
         else:
             res.nontrivial(("twins", pj[0][1]))
-    res.notes["project_stage"] = {"cut_sequences": len(projects), "files_per_project": nfiles, "rejection_cases": len(rej),
+    # ---- E: the same directory parsed again and again in ONE process with other contents under the same file names (a
+    # server, a watcher): every result must be the result of that project parsed in a directory of its own
+    seq = list(twins)
+    _random.Random(seed + 88).shuffle(seq)
+    seq = seq + [p for p in reversed(seq)]
+    fresh = dict(zip([repr(p) for p in twins], ot))
+    oe = C.run_lines("harness", "fn", [P.run_line("out=json,reuse", p) for p in seq])
+    res.count(len(seq))
+    for pj, x in zip(seq, oe):
+        sx, dx = P.parse(x)
+        sy, dy = P.parse(fresh[repr(pj)])
+        if sx != sy or (sx == "ok" and dx.get("json") != dy.get("json")) or (sx == "err" and dx.get("msg") != dy.get("msg")):
+            spec_bad.append((pj, "the project gives %s when its directory was parsed before with other contents in the same process, and %s in a "
+                                 "directory of its own: an included file is not read from the file system" % (sx, sy)))
+            break
+    res.notes["project_stage"] = {"reused_directory_sequence": len(seq), "cut_sequences": len(projects), "files_per_project": nfiles, "rejection_cases": len(rej),
                                   "fixture_cuts": len(cut_projects), "same_shape_include_families": len(twins)}
     res.sample({"project": [(n, c[:120]) for n, c in projects[len(projects) // 3]]})
     return corr_bad, spec_bad
